@@ -72,6 +72,7 @@ def _case(args):
         out["definition"], out["inputs"] = definition, inputs
         sess = PSession(definition, inputs, project, with_model=with_model)
         sess.case_seed, sess.fam = seed, fam
+        sess.cancel_dormant = bool(fam.get("lifecycle"))
         sess.probe, sess.probes = bool(fam.get("probe")), []
         oracle = progs.Oracle(seed, fam, per_task=bool(fam.get("per_task")))
         try:
